@@ -80,6 +80,17 @@ pub fn plan_for(prop: &str, tier: Tier, seed: u64, verif_dir: &str) -> Option<Pl
 			probes: vec![],
 			exhaustive: false,
 		},
+		"C13" => Plan {
+			property: "C13".into(),
+			tier,
+			seed,
+			jobs: vec![job("codecsim", "stream", n(30000, 100000)), job("codecsim", "ioskip", n(1000, 5000))],
+			level: "exploration".into(),
+			rule: "TODO".into(),
+			assumptions: t_assumptions.clone(),
+			probes: vec![],
+			exhaustive: false,
+		},
 		"C15" => Plan {
 			property: "C15".into(),
 			tier,
